@@ -155,7 +155,7 @@ def exEnv : Env Nat Nat :=
 def exRules : Rules := ⟨1, 5, 2, 20, 5, 10, 3, [2]⟩
 def exTx : Tx Nat Nat := ⟨⟨0, zeros 32, zeros 8⟩, [3, 3], 4⟩
 example : (estimateUnits exEnv exRules exTx.actions 4 5).isSome = true := by
-  simp [estimateUnits, checked, exEnv, exRules, exTx, storage, sum, maxU64]
+  simp [estimateUnits, checked, exEnv, exRules, exTx, storage, sum, maxU64, withIdx]
 example : Assumptions exEnv exRules exTx 4 5 := by
   refine ⟨by simp [exEnv, exTx], by simp [exEnv], rfl, by intros; simp [exEnv], by simp [exTx], by simp [exTx, zeros], by simp [exTx, zeros], ?_⟩
   have h3 : sizeUint 3 = 1 := sizeUint_small (by omega)
